@@ -161,6 +161,11 @@ def run(chk):
         if expect and r.violated != expect:
             raise vlib.ToolError("self-test failed: per-fragment locking produced no interleaving counterexample")
         chk.add_tlc(r, "S_schedules" + ("_per_fragment_counterexample" if pf else ""))
+    # the same safety property for ANY number of threads, calls and fragments: TLAPS proof of an inductive invariant
+    st, nobl, dt, tail = vlib.tlapm_check("spec/proofs/PrintLockProof.tla", "printlock", timeout=1200)
+    if st == "failed" or st == "tool":
+        raise vlib.ToolError("tlapm did not re-prove spec/proofs/PrintLockProof.tla (%s):\n%s" % (st, tail))
+    chk.part("S_unbounded_proof_tlaps", module="spec/proofs/PrintLockProof.tla", theorem="Spec => []NoInterleave", status=st, obligations=nobl, seconds=round(dt, 1))
     print_part(chk, vh, quick)
     choice_part(chk, vh, quick)
     chk.exhaustive = False
